@@ -18,7 +18,7 @@ typedef uint64_t index_t; typedef int64_t indexdiff_t; typedef uint64_t value_t;
 #define PopRetries 1
 #endif
 #ifndef G
-#define G 0                         /* max number of tail tickets burnt by enqueue attempts on a finalized ring */
+#define G 0                         /* max number of tail tickets burnt by enqueue attempts on a finalized ring; -DGAP_ANY: any number below 2^40 */
 #endif
 #define MAXPOS ((uint64_t)1 << 61)
 struct scq { index_t _head; int64_t _threshold; index_t _tail; uint64_t _data[N]; uint64_t xv_alloc; };
@@ -35,13 +35,22 @@ struct scq { index_t _head; int64_t _threshold; index_t _tail; uint64_t _data[N]
  *   position p = H+d, d <  cnt : slot(p) = (cycle(p), any safe bit, vals[d])
  *   position p = H+d, d >= cnt : slot(p) = (a cycle older than cycle(p) or the initial all-ones word, any safe bit, bottom)
  * threshold = 3*CAP-1 when cnt > 0, in [-1, 3*CAP-1] otherwise. */
-unsigned in_cap, in_op, in_finalizable; uint64_t in_H; unsigned in_cnt, in_gap; _Bool in_fin; int64_t in_th; uint64_t in_val[CAP]; uint64_t in_oc[N]; _Bool in_safe[N]; uint64_t in_v;
+/* number of burnt tail tickets of a finalized ring: every failed enqueue adds one, so it is not a shape.  With -DGAP_ANY it is any value below 2^40; what a
+   dequeue can do with them is bounded by the threshold (each drawn head ticket costs one unit, at most 3*CAP-1): KMAX head tickets are the most one call can visit */
+#ifdef GAP_ANY
+#define GAPMAX ((uint64_t)1 << 40)
+#define KMAX (3 * CAP)
+#else
+#define GAPMAX ((uint64_t)G)
+#define KMAX G
+#endif
+unsigned in_cap, in_op, in_finalizable; uint64_t in_H; unsigned in_cnt; uint64_t in_gap; _Bool in_fin; int64_t in_th; uint64_t in_val[CAP]; uint64_t in_oc[N]; _Bool in_safe[N]; uint64_t in_v;
 static size_t RS(void) { return scq_calc_remap_shift(CAP); }
 static void havoc_inputs(void) {
   in_cap = CAP; in_finalizable = Finalizable;
   in_H = nondet_u64(); XV_ASSUME(in_H < MAXPOS);
   in_cnt = nondet_uint(); XV_ASSUME(in_cnt <= CAP);
-  in_fin = nondet_bool(); in_gap = nondet_uint(); XV_ASSUME(in_gap <= G); if (!in_fin) XV_ASSUME(in_gap == 0);
+  in_fin = nondet_bool(); in_gap = nondet_u64(); XV_ASSUME(in_gap <= GAPMAX); if (!in_fin) XV_ASSUME(in_gap == 0);
   if (!Finalizable) XV_ASSUME(!in_fin);        /* rings used with enqueue<.,false> are never finalized (free rings, both rings of the bounded queue) */
   in_th = (int64_t)nondet_u64(); XV_ASSUME(in_cnt > 0 ? in_th == 3 * CAP - 1 : (in_th >= -1 && in_th <= 3 * CAP - 1));
   for (unsigned i = 0; i < CAP; i++) { in_val[i] = nondet_u64(); XV_ASSUME(in_val[i] < CAP); }
@@ -80,7 +89,7 @@ static _Bool represents(const struct scq* q, const struct ring_abs* a, uint64_t*
   if (T < H + a->cnt) return 0;
   uint64_t gap = T - H - a->cnt; *gapout = gap;
   if (!fin && gap != 0) return 0;
-  if (H >= MAXPOS + 64 || gap > (uint64_t)G + 64) return 0;
+  if (H >= MAXPOS + 64 || gap > GAPMAX + 64) return 0;
   for (unsigned s = 0; s < N; s++) {
     unsigned d = (unsigned)((pos_of_slot(s) - H) & (N - 1));
     index_t pos2 = (H + d) << 1, cyc = pos2 | MASK;
@@ -173,7 +182,7 @@ void h_deq(void) {
     /* every ticket drawn by the failed dequeue costs one unit of threshold ... */
     XV_OBL("scq.dequeue.empty_iff", q._threshold == in_th - (int64_t)(H - in_H));
     /* ... and its slot is closed for an enqueuer that still holds the same tail ticket: the entry is no longer (older, safe, bottom) */
-    for (unsigned k = 0; k <= G; k++) if (in_H + k < H) {
+    for (unsigned k = 0; k <= KMAX; k++) if (in_H + k < H) {
       index_t pos2 = (in_H + k) << 1; uint64_t e = q._data[scq_remap_index(pos2, RS(), N)];
       XV_OBL("scq.dequeue.blocks_ticket", !((int64_t)((e | MASK) - (pos2 | MASK)) < 0 && (e & N) != 0));
     }
